@@ -1004,7 +1004,8 @@ Definition run_ns_body (args : list N) : list N :=
    access in force (token type), the number of (name, '~' name) pairs and the pairs, tokens.  Output: 0, rest length, the anonymous-name
    counter, item count, items: 0 access citem (as 119) | 1 nitem (as 120) | 2 access key name (forward declaration) |
    3 access, nine flags, key, name id, anonymous, typedef, final, explicit, base count, bases as 85, member count, members,
-     what follows the brace as 112 (kind, count, entries) *)
+     what follows the brace as 112 (kind, count, entries) |
+   4 inline, name count, names, member count, members (namespace) | 5 alias, name count, names | 6 linkage string id, member count, members *)
 Definition enc_fin (f : FinishClass.fin_result) : list N :=
   match f with
   | FinishClass.FinNone => [0; 0]
@@ -1021,6 +1022,9 @@ Fixpoint enc_item (it : ClassDef.item) : list N :=
       3 :: acc :: enc_mods m ++ key :: bn :: bN anon :: bN td :: bN fi :: bN ex :: nlen bs ::
         flat_map (fun b => [b_access b; b_name b; bN (b_virtual b); bN (b_pack b)]) bs ++
         nlen members :: flat_map enc_item members ++ enc_fin fin
+  | ClassDef.INamespace il names members => 4 :: bN il :: nlen names :: names ++ nlen members :: flat_map enc_item members
+  | ClassDef.IAlias al names => 5 :: al :: nlen names :: names
+  | ClassDef.IExtern l members => 6 :: l :: nlen members :: flat_map enc_item members
   end.
 Fixpoint dec_pairs (n : nat) (l : list N) : list (N * N) * list N :=
   match n, l with
